@@ -9,12 +9,12 @@ LEVEL_NOTE = (
 CLAIMS = {
     "C03": {
         "technique": "static analysis: who-may-write sweep over record fields, interval/length algebra on linear forms (A4), exhaustive action dispatch (A6), abstract execution of remainder() on literal match lists",
-        "text": "Decides, for every path of the modifier code, that bases/qualities of a record are only ever written on a private copy by the mask/lowercase/zero-cap code, that the written strings keep the length and only change the documented positions, that the three encodings of a match's kept interval (trimmed / trim_slice / remainder_interval), removed_sequence_length, retained interval and remainder() agree as linear forms, that every --action value has a branch in both cutters operating on the original read, and that trimming modifiers slice the record (not one string). Not decided: that match coordinates lie inside the read (runtime values).",
+        "text": "Decides, for every path of the modifier code, that bases/qualities of a record are only ever written on a private copy by the mask/lowercase/zero-cap code, that the written strings keep the length and only change the documented positions, that the three encodings of a match's kept interval (trimmed / trim_slice / remainder_interval), removed_sequence_length, retained interval and remainder() agree as linear forms, that every --action value has a branch in both cutters operating on the original read, and that trimming modifiers slice the record (not one string). Not decided: that match coordinates lie inside the read (runtime values). Also: no modifier indexes into a possibly empty read; --quality-base reaches every modifier interpreting quality characters (C03.X).",
         "design_ref": "DESIGN.md section 5, C03",
     },
     "C04": {
         "technique": "static analysis: path-exhaustive abstract execution of every step's __call__ (effect counting per path, A1), decision table of _collect_step (A3), name-table agreement predicates/sinks vs report.FILTERS (A5), builder interpreter for 'last step is a sink' (A2)",
-        "text": "Decides on every path of every pipeline step that a consumed read is accounted exactly once (filtered counter or write+length statistics of the same records), that counters are collected (interfaces, _collect_step table), that every reportable filter name is in report.FILTERS, that both process_reads loops count each record once and stop at the first None, that per-chunk/per-worker collection is not duplicated, and (builder interpreter) that every accepted configuration ends in exactly one consuming sink. Not decided: equality with the bytes in the output files.",
+        "text": "Decides on every path of every pipeline step that a consumed read is accounted exactly once (filtered counter or write+length statistics of the same records), that counters are collected (interfaces, _collect_step table), that every reportable filter name is in report.FILTERS, that both process_reads loops count each record once and stop at the first None, that per-chunk/per-worker collection is not duplicated, and (builder interpreter) that every accepted configuration ends in exactly one consuming sink. Not decided: equality with the bytes in the output files. Also: tallies fed by several modifiers are accumulated by the collector; worker statistics are merged additively (C04.X).",
         "design_ref": "DESIGN.md section 5, C04",
     },
     "C05": {
@@ -24,12 +24,12 @@ CLAIMS = {
     },
     "C09": {
         "technique": "static analysis: decision tables (A3) of the best-of loop, the linked-adapter required/optional logic and its defaults; abstract execution of one trimming round and of the times==1 specialisation; dataflow of per-side ingredients in the linked-adapter factory (A8)",
-        "text": "Decides the replace-iff table of MultipleAdapters.match_to (higher score, then fewer errors, first wins), that adapters are tried in the given order unless an index is really built, the shape of one --times round (search what the previous round left, stop at the first miss, append once) and the equivalence of the specialised routine, the LinkedAdapter result table over (found, required) and its search regions, the -a/-g required defaults with explicit override, and that a read counts as trimmed iff matches were applied. Not decided: score arithmetic.",
+        "text": "Decides the replace-iff table of MultipleAdapters.match_to (higher score, then fewer errors, first wins), that adapters are tried in the given order unless an index is really built, the shape of one --times round (search what the previous round left, stop at the first miss, append once) and the equivalence of the specialised routine, the LinkedAdapter result table over (found, required) and its search regions, the -a/-g required defaults with explicit override, and that a read counts as trimmed iff matches were applied. Not decided: score arithmetic. Also: LinkedMatch.score/.errors are the sums over the parts found; the regrouped adapter list is a partition of the given adapters.",
         "design_ref": "DESIGN.md section 5, C09",
     },
     "C10": {
         "technique": "static analysis: builder interpreter (A2) - abstract execution of make_pipeline_from_args and its generator helpers block by block with forking on option tests; pairwise stage-order check over all co-occurring slots; routing shapes; option table read from the argparse declarations (A5)",
-        "text": "Decides, over every accepted option combination at once, that the modifiers list is assembled in the documented stage order (stage = the option that switches a slot on), that lower-case options build (X, None), upper-case (None, X) and shared options two distinct objects (R2 from its override), that numeric options are tested with 'is None', that the builder reads only the parsed namespace, and that both pipelines apply modifiers + steps sequentially. Not decided: what each modifier does.",
+        "text": "Decides, over every accepted option combination at once, that the modifiers list is assembled in the documented stage order (stage = the option that switches a slot on), that lower-case options build (X, None), upper-case (None, X) and shared options two distinct objects (R2 from its override), that numeric options are tested with 'is None', that the builder reads only the parsed namespace, and that both pipelines apply modifiers + steps sequentially. Not decided: what each modifier does. Also (C10.R5): the single-end and paired-end renamers fill {cut_prefix}/{cut_suffix}/{adapter_name}/{match_sequence} by the same function of the modification info.",
         "design_ref": "DESIGN.md section 5, C10",
     },
     "C11": {
@@ -39,7 +39,7 @@ CLAIMS = {
     },
     "C16": {
         "technique": "static analysis: decision table (A3) of the orientation choice over (score difference sign, reverse matches empty?) for both complementer classes, path-exhaustive check of the consequences of the choice (A1), builder facts for the rc suffix",
-        "text": "Decides that the reverse complement / swapped pair is used iff it has a match and a strictly higher summed score, that both orientations are trimmed independently with the right cutter on the right read, and that counter, is_rc flag, name suffix, returned records and the registration of matches/statistics follow the choice on every path; ' rc' suffix iff --rename absent; {rc} and the info file use is_rc. Not decided: the scores themselves.",
+        "text": "Decides that the reverse complement / swapped pair is used iff it has a match and a strictly higher summed score, that both orientations are trimmed independently with the right cutter on the right read, and that counter, is_rc flag, name suffix, returned records and the registration of matches/statistics follow the choice on every path; ' rc' suffix iff --rename absent; {rc} and the info file use is_rc. Not decided: the scores themselves. A decision that compares other score sums than the two totals is reported as a violation.",
         "design_ref": "DESIGN.md section 5, C16",
     },
 }
@@ -47,17 +47,17 @@ CLAIMS = {
 CLAIMS.update({
     "C06": {
         "technique": "static analysis: protocol-frame extraction by abstract execution of both ends of each pipe (A9), multiplicity/ordering of registered output files vs proxy chunks, OrderedChunkWriter release rule, merge-completeness and additivity of every __iadd__ (taint from other.<attr> to self.<attr>), constructor/pickle signature agreement (A8)",
-        "text": "Decides the parts of 'multi-core = single-core' that are visible in the code shape: sender and receiver agree on frame layout and sentinels on the three pipes, each open_* call registers as many files as its proxy drains chunks and both lists are append-only and iterated in order, the ordered writer releases index k only after k-1 starting at the reader's first index, every statistics merge adds every tally from the same field of the other object, pickled objects restore exactly their constructor arguments, and the output/input format decisions are independent of the runner. NOT decided: the schedule quantifier itself (interleavings of reader, workers and main; needs a model checker), byte identity of files, liveness.",
+        "text": "Decides the parts of 'multi-core = single-core' that are visible in the code shape: sender and receiver agree on frame layout and sentinels on the three pipes, each open_* call registers as many files as its proxy drains chunks and both lists are append-only and iterated in order, the ordered writer releases index k only after k-1 starting at the reader's first index, every statistics merge adds every tally from the same field of the other object, pickled objects restore exactly their constructor arguments, and the output/input format decisions are independent of the runner. NOT decided: the schedule quantifier itself (interleavings of reader, workers and main; needs a model checker), byte identity of files, liveness. The merge rule also requires that a tally is added somewhere (adoption when empty alone is accepted only for flags checked for equality) and that no merge is skipped depending on the merged value.",
         "design_ref": "DESIGN.md section 5, C06",
     },
     "C19": {
         "technique": "static analysis: path-exhaustive abstract execution of the writer factories comparing the format information reaching the proxied and the direct writer (A7), dataflow of the input format on the serial and the worker path, decision tables for --fasta and interleaving, builder interpreter for writer layouts",
-        "text": "Decides that the FASTA/FASTQ decision for every output is made once from the path string (compression suffix stripped) / --fasta / has_qualities() before any file object exists and reaches both writer kinds unchanged, that --fasta only acts on standard output, that both runners parse the input with the content-detected format through the same opener, and the interleaving flags of inputs and of every paired writer. Not decided: codec round trips, multi-member gzip, FASTA/FASTQ record equivalence (library and runtime).",
+        "text": "Decides that the FASTA/FASTQ decision for every output is made once from the path string (compression suffix stripped) / --fasta / has_qualities() before any file object exists and reaches both writer kinds unchanged, that --fasta only acts on standard output, that both runners parse the input with the content-detected format through the same opener, and the interleaving flags of inputs and of every paired writer. Not decided: codec round trips, multi-member gzip, FASTA/FASTQ record equivalence (library and runtime). Also: the name-derived formats of a writer's paths are combined as a set and applied iff exactly one distinct format.",
         "design_ref": "DESIGN.md section 5, C19",
     },
     "C20": {
         "technique": "static analysis: path-exhaustive abstract execution of the five registration sites and of every add_match body (A1/A7), slice algebra for the adjacent base (A4), exhaustiveness of _collect_modifier over tally-keeping modifier classes (A6), sibling agreement of the ErrorRanges call sites",
-        "text": "Decides that matches are registered exactly once after the orientation/pair decision on the statistics object of their own adapter and on the right info, that every add_match tallies errors[removed length][errors] (+ adjacent base as a one-base slice, '' when unknown) on the right end, that every modifier class keeping tallies is collected into the slot of its mate, and that text and JSON report build the allowed-error table from effective_length and max_error_rate. Not decided: the allowed-errors arithmetic itself (a numeric defect is recorded in DESIGN.md).",
+        "text": "Decides that matches are registered exactly once after the orientation/pair decision on the statistics object of their own adapter and on the right info, that every add_match tallies errors[removed length][errors] (+ adjacent base as a one-base slice, '' when unknown) on the right end, that every modifier class keeping tallies is collected into the slot of its mate, and that text and JSON report build the allowed-error table from effective_length and max_error_rate. Not decided: the allowed-errors arithmetic itself (a numeric defect is recorded in DESIGN.md). Also: error_counts of a histogram row is dense (position = number of errors); the per-adapter orientation tally is updated once per registered match.",
         "design_ref": "DESIGN.md section 5, C20",
     },
 })
@@ -65,22 +65,22 @@ CLAIMS.update({
 CLAIMS.update({
     "C12": {
         "technique": "static analysis of error discipline: structure of the try/except in both process run() methods and in main(), abstract execution of every broad handler body (re-raise / exit non-zero / forward sentinel on every path), first-matching-handler resolution per input-error class, protocol-frame rules shared with C06",
-        "text": "Decides that all work in the worker and reader processes lies inside an 'except Exception' that forwards (-2, (exception, traceback)) on every outgoing connection, that the end token is only sent after a complete read, that sentinels are tested before payload is read and that the main process terminates the children before re-raising, that the first handler in main() catching each input-error class logs the error and exits non-zero (2 for command-line errors), that no broad handler in the package swallows an exception, and that two inputs go through one paired reader. NOT decided: termination under every schedule and fault position (liveness, needs a model checker), completeness of the records written before the error, the library's behaviour on truncated streams.",
+        "text": "Decides that all work in the worker and reader processes lies inside an 'except Exception' that forwards (-2, (exception, traceback)) on every outgoing connection, that the end token is only sent after a complete read, that sentinels are tested before payload is read and that the main process terminates the children before re-raising, that the first handler in main() catching each input-error class logs the error and exits non-zero (2 for command-line errors), that no broad handler in the package swallows an exception, and that two inputs go through one paired reader. NOT decided: termination under every schedule and fault position (liveness, needs a model checker), completeness of the records written before the error, the library's behaviour on truncated streams. Also: forwarding handlers read only variables bound before their try (otherwise the handler itself fails and nothing is forwarded).",
         "design_ref": "DESIGN.md section 5, C12",
     },
     "C15": {
         "technique": "static analysis: path-exhaustive abstract execution of the three _open_writers and __call__ methods (A1), decision table of the demultiplex-mode detection (A3), builder interpreter for the placement and wiring of the demultiplexer step (A2)",
-        "text": "Decides that a writer is opened unconditionally for every adapter name / name combination with the right template per mate, the untrimmed target rule, that reads are routed by the name of the LAST match (of R1; of R1 and R2 in that order), the mode-detection table, the accounting of the three demultiplexers, and that a demultiplexer is the only consuming step of its configurations and is wired to its own options. Not decided: multiset equality with the un-demultiplexed output.",
+        "text": "Decides that a writer is opened unconditionally for every adapter name / name combination with the right template per mate, the untrimmed target rule, that reads are routed by the name of the LAST match (of R1; of R1 and R2 in that order), the mode-detection table, the accounting of the three demultiplexers, and that a demultiplexer is the only consuming step of its configurations and is wired to its own options. Not decided: multiset equality with the un-demultiplexed output. Also: a pair is dropped only on a writer lookup miss for its key; open_raise_limit retries exactly on EMFILE and re-raises other errors.",
         "design_ref": "DESIGN.md section 5, C15",
     },
     "C17": {
         "technique": "static analysis: path-exhaustive abstract execution of the info writer and of both get_info_records (A1), slice algebra of the printed fields (A4), builder interpreter for the position of the writer and for the set of pre-adapter modifiers that remove a prefix (A2)",
-        "text": "Decides that the info writer returns every read and prints exactly one -1 row without match / one row per info record otherwise, that it precedes every consuming step, that the three sequence and quality fields are [0,a) [a,b) [b,end) of the record passed in with a, b the printed coordinates, the ;1/;2 rows of linked matches and the once-per-match advance, and that no modifier running before adapter trimming removes a prefix without the writer accounting for it (two known findings: -u N>0 and a 5' quality cutoff). Not decided: agreement with the aligner's error count.",
+        "text": "Decides that the info writer returns every read and prints exactly one -1 row without match / one row per info record otherwise, that it precedes every consuming step, that the three sequence and quality fields are [0,a) [a,b) [b,end) of the record passed in with a, b the printed coordinates, the ;1/;2 rows of linked matches and the once-per-match advance, and that no modifier running before adapter trimming removes a prefix without the writer accounting for it (two known findings: -u N>0 and a 5' quality cutoff). Not decided: agreement with the aligner's error count. The frame rule also covers suffix removal before matching under --revcomp (three further known findings, same root cause).",
         "design_ref": "DESIGN.md section 5, C17",
     },
     "C18": {
         "technique": "static analysis: option table read from argparse with constant folding of the type lambdas (A5), decision tables (A3) of the class table, restriction parser, validation rules and ellipsis normalisation, dataflow of parameter-dict copies for precedence (A8), who-raises-what sweep against the handler tuple",
-        "text": "Decides the option->type table, the (type, restriction, rightmost)->class table and the restriction parser, that exactly the documented invalid combinations are rejected (e.g. o= only for anchored adapters), the abbreviation graph and the fate of every canonical parameter, that each precedence level is a copy of the lower level updated by the higher one, the anchoring characters of the file: forms, the divisor of absolute error numbers, and that every exception class raised on the specification path is converted to a command-line error. Not decided: the grammar x options cross product as strings; brace expansion.",
+        "text": "Decides the option->type table, the (type, restriction, rightmost)->class table and the restriction parser, that exactly the documented invalid combinations are rejected (e.g. o= only for anchored adapters), the abbreviation graph and the fate of every canonical parameter, that each precedence level is a copy of the lower level updated by the higher one, the anchoring characters of the file: forms, the divisor of absolute error numbers, and that every exception class raised on the specification path is converted to a command-line error. Brace expansion x{n} is decided as a four-state machine (C18.R8); anchored classes require the whole adapter; 'anywhere' is consumed on every path. Not decided: the grammar x options cross product as strings.",
         "design_ref": "DESIGN.md section 5, C18",
     },
 })
@@ -88,22 +88,22 @@ CLAIMS.update({
 CLAIMS.update({
     "C01": {
         "technique": "static analysis of the aligner's shape: flag/placement table agreement (A5), abstract execution of the two candidate-recording sites with entailment of the acceptance test (A1/A3), linear algebra of the N-discount window (A4), decision table of the DP cell's three-way minimum, Hamming comparer tables, result-tuple/constructor agreement (A8), IUPAC table against the standard",
-        "text": "Decides necessary conditions of 'every reported match is genuine and in tolerance': every adapter class is searched with the end-skip flags of its documented placement rule; a candidate is recorded only on paths where length >= min_overlap and cost <= N-discounted length * rate were established; the N window equals the aligned adapter interval; n_counts are prefix sums; the DP cell takes a minimum with a consistent predecessor; the Hamming comparers' acceptance and coordinates; the six result components reach the match under their own names (incl. the rightmost mirror); the IUPAC/ACGT encodings and their selection. NOT decided: that the DP yields the true edit distance and an optimal score for every read, and that origin-derived coordinates lie inside the read.",
+        "text": "Decides necessary conditions of 'every reported match is genuine and in tolerance': every adapter class is searched with the end-skip flags of its documented placement rule; a candidate is recorded only on paths where length >= min_overlap and cost <= N-discounted length * rate were established; the N window equals the aligned adapter interval; n_counts are prefix sums; the DP cell takes a minimum with a consistent predecessor; the Hamming comparers' acceptance and coordinates; the six result components reach the match under their own names (incl. the rightmost mirror); the IUPAC/ACGT encodings and their selection. NOT decided: that the DP yields the true edit distance and an optimal score for every read, and that origin-derived coordinates lie inside the read. Also: anchored adapter classes force min_overlap = len(sequence); shared constructs (index coordinates/tolerance/N fallback, pickled aligners) are re-reported as C01.X.",
         "design_ref": "DESIGN.md section 5, C01",
     },
     "C02": {
         "technique": "static analysis: abstract execution of the band set-up of Aligner.locate over all end-skip flag combinations with entailment of the band inequalities (A3/A4), decision tables of the shrink loop and the early exit, structure of the candidate scans",
-        "text": "Decides the band/limit conditions without which occurrences are lost for particular read lengths: the column range contains min(n, m+k) / max(0, n-m-k) and is only restricted when the corresponding read end is fixed, the Ukkonen limit starts at >= min(m, k+1) and only shrinks over cells with cost > k, the only early exit is an exact match starting inside the read after the best match was updated, last-row and last-column candidates are considered exactly under the documented flags, and the rightmost 5' adapter searches reversed strings. NOT decided: completeness of the search, leftmost/rightmost optimality, 'exact copies never survive'.",
+        "text": "Decides the band/limit conditions without which occurrences are lost for particular read lengths: the column range contains min(n, m+k) / max(0, n-m-k) and is only restricted when the corresponding read end is fixed, the Ukkonen limit starts at >= min(m, k+1) and only shrinks over cells with cost > k, the only early exit is an exact match starting inside the read after the best match was updated, last-row and last-column candidates are considered exactly under the documented flags, and the rightmost 5' adapter searches reversed strings. NOT decided: completeness of the search, leftmost/rightmost optimality, 'exact copies never survive'. Also (C02.X): the prefilter (coverage, inputs, windows, no overlapping window skipped), the index lookups and pickled aligners/prefilters do not lose admissible occurrences.",
         "design_ref": "DESIGN.md section 5, C02",
     },
     "C07": {
         "technique": "static analysis: coverage table aligner flags -> requested k-mer search sets per adapter class (A5/A2), argument/role agreement between prefilter and aligner (A7/A8), abstract execution of one error tier of the search-set builder, symbolic bounds of the raw-pointer scan with a small-model feasibility check (A10)",
-        "text": "Decides necessary conditions of 'the prefilter never changes the result': every placement the aligner flags admit is covered by a requested search set (and reads shorter than an anywhere adapter bypass the filter), filter and aligner get the same wildcard flags, error rate, overlap and string, each error tier emits max_errors+1 chunks and advances the minimum length, end windows are widened by the error allowance when indels are on, the scan never leaves the read, and k-mers fit the 64-bit word with a fallback to the always-true finder. NOT decided: soundness of the pigeonhole argument as a whole for every read.",
+        "text": "Decides necessary conditions of 'the prefilter never changes the result': every placement the aligner flags admit is covered by a requested search set (and reads shorter than an anywhere adapter bypass the filter), filter and aligner get the same wildcard flags, error rate, overlap and string, each error tier emits max_errors+1 chunks and advances the minimum length, end windows are widened by the error allowance when indels are on, the scan never leaves the read, and k-mers fit the 64-bit word with a fallback to the always-true finder. NOT decided: soundness of the pigeonhole argument as a whole for every read. Also: no search entry whose window overlaps the read is skipped (small-model check on every skipping path).",
         "design_ref": "DESIGN.md section 5, C07",
     },
     "C08": {
         "technique": "static analysis: decision tables (A3) of the index insertion step (ambiguity bookkeeping), of the multi-length look-up loop (length bound, best-of, continuation on a miss, N path) and of the eligibility test; constructor-argument agreement for the match factories (A8); KeyError paths are explored",
-        "text": "Decides that index matches have in-read coordinates (only lengths that fit are looked up; [0,length) / [len-length,len) factories), that a string is ambiguous afterwards iff its best match count is attained twice (strictly better clears), the best-of-lengths selection with continuation on a miss, each adapter's own error allowance for its neighbourhood, the eligibility table, and that affixes containing N are re-aligned. NOT decided: completeness of the neighbourhood enumerators; the 'exactly one adapter within tolerance' clause.",
+        "text": "Decides that index matches have in-read coordinates (only lengths that fit are looked up; [0,length) / [len-length,len) factories), that a string is ambiguous afterwards iff its best match count is attained twice (strictly better clears), the best-of-lengths selection with continuation on a miss, each adapter's own error allowance for its neighbourhood, the eligibility table, and that affixes containing N are re-aligned. NOT decided: completeness of the neighbourhood enumerators; the 'exactly one adapter within tolerance' clause. Also: a re-aligned N lookup is accepted only if it spans the whole affix; regrouping keeps every given adapter exactly once.",
         "design_ref": "DESIGN.md section 5, C08",
     },
     "C13": {
